@@ -164,5 +164,25 @@ Definition step' (s : st) (r : list Z) : option st :=
     match must s with [] => Some s | _ => None end
   else step s r.
 
+(** scenario key 904 (set by the generator on loss-free links for connections that are closed only
+    when the workload is done): at the end every stream a sender finished - apart from stream index 0
+    of each kind, which the scenario may reset or stop - has been read to its end by the peer's
+    application: nothing that was written and acknowledged may be swallowed *)
+Definition all_delivered (s : st) : bool :=
+  forallb (fun kw =>
+    let '((e, idx, sid), w) := kw in
+    match fin_at w, reset_code w with
+    | Some _, None =>
+        (sid <? 4) ||
+        match sget (rs s) (1 - e, idx, sid) with
+        | Some r => ended r
+        | None => false
+        end
+    | _, _ => true
+    end) (ws s).
+
+Definition step'' (all_seen : bool) (s : st) (r : list Z) : option st :=
+  if (tag r =? 10) && all_seen && negb (all_delivered s) then None else step' s r.
+
 Definition monitor (i : ops) (o : outs) : option Z :=
-  snd (run_from step' 0 {| ws := []; rs := []; dg_sent := []; dg_seen := []; ordered := negb (param i 14 1 =? 0); sbuf := param i 51 65536; must := []; deliver_small := param i 903 0 =? 1; settle_from := 0 |} o).
+  snd (run_from (step'' (param i 904 0 =? 1)) 0 {| ws := []; rs := []; dg_sent := []; dg_seen := []; ordered := negb (param i 14 1 =? 0); sbuf := param i 51 65536; must := []; deliver_small := param i 903 0 =? 1; settle_from := 0 |} o).
